@@ -10,7 +10,7 @@ from eudoxia.workload.pipeline import Segment
 from eudoxia.simulator import parse_args_with_defaults, get_param_defaults
 from eudoxia.utils import Priority
 
-ZS = [0.2, -3, -1.2, -0.7, -0.2, 0.7, 1.2, 3]      # index 0 = default answer
+ZS = [0.2, -3, -1.2, -0.7, -0.2, 0.7, 1.2, 3, -5, 5]      # index 0 = default answer; +-5 sigma: draws that come out negative
 # documented prototypes (cpu seconds, scaling law, read GB), from the most I/O-heavy to the most CPU-heavy
 PROTOS = [(1, "const", 55), (2, "sqrt", 55), (5, "linear3", 45), (15, "linear3", 37.5), (20, "linear7", 30), (40, "linear7", 20), (80, "squared", 10)]
 QUERY_PROTO = (15, "linear3", 35)
